@@ -79,6 +79,13 @@ func vfDoWrite(c *Conn, wp int, mt int, data []byte, k int) error {
 		}
 		return w.Close()
 	case vfWPPrepared:
+		// WritePreparedMessage does not close an open writer (only NextWriter
+		// does): an application has to finish its open message first
+		if c.writer != nil {
+			if err := c.writer.Close(); err != nil {
+				return err
+			}
+		}
 		pm, err := NewPreparedMessage(mt, data)
 		if err != nil {
 			return err
